@@ -418,6 +418,23 @@ fn oracle(d: &Decl, ld: &Loaded, pool: &Pool, out: &mut Out) {
             Some(RequestType::AddHttpsListener(l)) => { added.insert((1, sa(&l.address))); }
             Some(RequestType::AddTcpListener(l)) => { added.insert((2, sa(&l.address))); }
             Some(RequestType::AddUdpListener(l)) => { added.insert((3, sa(&l.address))); }
+            Some(RequestType::AddCluster(c)) => { added.insert((10, c.cluster_id.clone())); }
+            Some(RequestType::AddCertificate(c)) => { added.insert((11, sa(&c.address))); }
+            Some(RequestType::AddHttpsFrontend(f)) => {
+                if !added.contains(&(11, sa(&f.address))) {
+                    out.viol("order", &format!("AddHttpsFrontend {} {} precedes every AddCertificate of its address", sa(&f.address), f.hostname));
+                }
+                if let Some(id) = &f.cluster_id {
+                    if !added.contains(&(10, id.clone())) {
+                        out.viol("order", &format!("a frontend of cluster {id} precedes its AddCluster"));
+                    }
+                }
+            }
+            Some(RequestType::AddBackend(b)) => {
+                if !added.contains(&(10, b.cluster_id.clone())) {
+                    out.viol("order", &format!("a backend of cluster {} precedes its AddCluster", b.cluster_id));
+                }
+            }
             Some(RequestType::ActivateListener(a)) => {
                 if !added.contains(&(a.proxy, sa(&a.address))) {
                     out.viol("order", &format!("ActivateListener {} precedes its AddListener", sa(&a.address)));
